@@ -3,7 +3,6 @@ ENGINES = [
  {"name":"cluster-sim (macro-step)","path":"/verif/sim","serves_properties":["C01","C03","C04","C06","C07","C09","C10","C11"],"kind_free_text":"deterministic discrete-event simulation: real parties and routers in a testing/synctest bubble, one scheduler-chosen event per quiescence, seeded delivery policies and fault injection"},
 ]
 PENDING = {
- "C01":"check under construction in this session (planned: cluster-sim exploration, DESIGN.md section 3)",
  "C04":"check under construction in this session (planned: wire-adversary fault enumeration, DESIGN.md section 3)",
  "C06":"check under construction in this session (planned: history simulation, DESIGN.md section 3)",
  "C07":"check under construction in this session (planned: paired replay on the randomness seam, DESIGN.md section 3)",
@@ -25,4 +24,9 @@ CHECKS = {
   "design_ref":"DESIGN.md section 3 C10",
   "note":"Trusted: testing/synctest, the harness oracle; inequality checks assume SHA-3 collision resistance.",
   "technique":"deterministic simulation with fault injection (seeded schedule/fault search, wire adversary on one party's link)"},
+ "C01": {"engine":"cluster-sim (macro-step)","level":"exploration",
+  "text":"Seeded simulated threshold-signing runs through the real session and signing runners (and real DKG runners for part of the key material) over the simulated network with reordering, duplication, redelivery and injection; quorums are drawn from an independent policy evaluator, every quorum member and an outsider aggregate, and the signature is judged by verifiers written from the specifications over independent curve arithmetic (plus the standard library where wire-compatible) for exactly the signed message.",
+  "design_ref":"DESIGN.md section 3 C01",
+  "note":"Trusted: /verif/ref (math/big curve arithmetic, ECDSA, BIP-340, Schnorr verification), Go standard library hashes and crypto/ecdsa, crypto/ed25519, testing/synctest. BLS and Mina are judged semi-independently (library verifier + omniscient algebraic check).",
+  "technique":"deterministic simulation with fault injection (seeded schedule/fault search over real signing runners, independent verifier oracle)"},
 }
